@@ -7,4 +7,4 @@ for t in tools/gen_*.py; do [ -f "$t" ] && { /venv/bin/python -W ignore "$t" || 
 cd coq
 { echo "-Q theories UPV"; echo "-arg -w -arg -notation-overridden,-deprecated-hint-without-locality,-deprecated-instance-without-locality"; find theories -name '*.v' | LC_ALL=C sort; } > _CoqProject
 coq_makefile -f _CoqProject -o Makefile >/dev/null
-timeout 3000 make -j16 2>&1 | grep -v -E "^(COQC|COQDEP|CLEAN)" | tail -50
+timeout 3000 make -k -j16 2>&1 | grep -v -E "^(COQC|COQDEP|CLEAN)" | tail -50
